@@ -514,6 +514,13 @@ func (fc *FuncCtx) execBuiltin(fr *Frame, st *State, b *ssa.Builtin, com *ssa.Ca
 	switch b.Name() {
 	case "ssa:deferstack":
 		return Val{T: c.Int(0)}
+	case "recover":
+		// the value a deferred function recovers: any interface value (nil = no panic in flight); nameable as ret(recover, n, 0)
+		t := c.Fresh("recover", SInt)
+		st.assume(c, c.Cmp(">=", t, c.Int(0)))
+		fc.callCount["recover"]++
+		fc.callResults[fmt.Sprintf("recover#%d", fc.callCount["recover"])] = []SV{{T: t, GoT: com.Signature().Results().At(0).Type()}}
+		return Val{T: t, GoT: com.Signature().Results().At(0).Type()}
 	case "len":
 		x := arg(0)
 		switch {
